@@ -405,7 +405,36 @@ func expandCallTerm(p *Prog, call *Term) []*Term {
 		}
 	}
 	if errIdx < 0 {
-		return nil
+		// a (values…, ok) helper: the values are those of the single exit that reports true
+		okIdx := nres - 1
+		if nres < 2 || !types.Identical(h.Signature.Results().At(okIdx).Type().Underlying(), types.Typ[types.Bool]) {
+			return nil
+		}
+		var succ *Exit
+		for i := range rets {
+			switch hb.Of(rets[i].Results[okIdx], rets[i].Instr).String() {
+			case "true":
+				if succ != nil {
+					return nil
+				}
+				succ = &rets[i]
+			case "false":
+			default:
+				return nil
+			}
+		}
+		if succ == nil {
+			return nil
+		}
+		out := make([]*Term, nres)
+		for k := 0; k < nres; k++ {
+			if k == okIdx {
+				out[k] = &Term{Op: "ext", Idx: k, V: nil, Args: []*Term{call}}
+				continue
+			}
+			out[k] = hb.Of(succ.Results[k], succ.Instr)
+		}
+		return out
 	}
 	var succ *Exit
 	var failTerm *Term
